@@ -25,6 +25,8 @@ A4 == {"a", "b", "c", "coll"}
 Amt012 == {0, 1, 2}
 Amt01 == {0, 1}
 Amt013 == {0, 1, 3}
+Amt03 == {0, 3}
+IO1 == {C(1, 1)}
 IO2 == {C(1, 0), C(0, 1)}
 IO3 == {C(1, 0), C(0, 1), C(2, 1)}
 =============================================================================
